@@ -508,6 +508,14 @@ class Verifier:
             t = self.eval_clause(st, r, spec_env)
             self.emit(st, "pre", "%s.%s" % (cls.qualname, r.__name__), t)
             st.assume(t)
+        # caller-side assertions attached to this call site by the caller's contract
+        if caller is not None and len(st.frames) >= 1 and st.frames[-1].func is self.cur_func:
+            for fn in getattr(caller, "at_calls", {}).get(cls.qualname.split(".")[-1], []):
+                envc = dict(st.frames[-1].locals, g=self.ghost_view(st), old=getattr(st, "old", None))
+                for k2, v2 in bound.items():
+                    envc["arg_" + k2] = v2
+                self.emit(st, "assert", "at-%s.%s" % (cls.qualname.split(".")[-1], fn.__name__),
+                          self.eval_clause(st, fn, envc))
         st.trace.append("call %s" % cls.qualname)
         outcomes = []
         # exceptional outcomes
@@ -834,6 +842,10 @@ def wrap_python(v, verifier):
         return v
     if isinstance(v, enum.Enum):
         return v
+    if isinstance(v, RecSpec):
+        def impl0(ip, st, args, kwargs, _f=v):
+            yield st, _f(ip, st, *args)
+        return Builtin("recspec:" + v.__name__, impl0)
     if isinstance(v, types.FunctionType):
         if getattr(v, "_native", False):
             def impl(ip, st, args, kwargs, _f=v):
@@ -1055,3 +1067,32 @@ def _byte(ip, st, x):
 @spec_builtin("field")
 def _field(ip, st, obj, name):
     return st.fields(obj)[name]
+
+
+class RecSpec:
+    """Recursive spec function f(x..., k) over a natural number k, as an uninterpreted function whose
+    defining equations are instantiated (assumed) at every mention:
+        k <= 0  =>  f(x, k) = base(x)
+        k >  0  =>  f(x, k) = step(x, k-1, f(x, k-1))
+    Sound because the definition is well-founded (a conservative extension)."""
+
+    def __init__(self, name, argsorts, ressort, base, step):
+        self.decl = tm.FunDecl(name, list(argsorts) + [INT], ressort)
+        self.base, self.step = base, step
+        self._native = True
+        self.__name__ = name
+
+    def term(self, st, xs, k, depth=1):
+        t = self.decl(*xs, k)
+        st.assume(tm.Implies(tm.Le(k, tm.Int(0)), tm.Eq(t, self.base(*xs))))
+        prev_k = tm.Sub(k, tm.Int(1))
+        prev = self.decl(*xs, prev_k)
+        st.assume(tm.Implies(tm.Gt(k, tm.Int(0)), tm.Eq(t, self.step(*xs, prev_k, prev))))
+        if depth > 0 and not (k.op == "int" and k.val <= 0):
+            self.term(st, xs, prev_k, depth - 1)
+        return t
+
+    def __call__(self, ip, st, *args):
+        xs = [to_term(L.int_of(a)) for a in args[:-1]]
+        k = to_term(L.int_of(args[-1]))
+        return wrap_sort(self.term(st, xs, k))
